@@ -260,7 +260,7 @@ def check_obs(case, obs):
 def check(case):
     obs = tw.execute(case['spec'])
     res = check_obs(case, obs)
-    if any(t.get('own_stdout') for t in case['spec']['tests']):
+    if any(t.get('own_stdout') or t.get('own_stderr') for t in case['spec']['tests']):
         # a test that swaps sys.stdout takes the runner's own report with it (the formatter prints to whatever sys.stdout
         # is): attribution is the test's doing there; what the property still demands is that the streams are restored
         res = [r for r in res if 'streams-replaced' in r[0] or 'aborts-run' in r[0]]
@@ -312,6 +312,10 @@ def gen_own_stdout():
             yield {'spec': {'tests': [dict(NOISE_BEFORE), t, dict(NOISE_AFTER)], 'args': args}}
             yield {'spec': {'tests': [dict(NOISE_BEFORE), t], 'args': args}}
             yield {'spec': {'tests': [t, {'k': 'fail', 'out': [['body', 'out', 'nl']]}], 'args': args}}
+            # ... and a test that does so with sys.stderr only
+            t2 = {'k': k, 'own_stderr': True, 'out': [['body', 'out', 'nl']]}
+            yield {'spec': {'tests': [dict(NOISE_BEFORE), t2, dict(NOISE_AFTER)], 'args': args}}
+            yield {'spec': {'tests': [dict(NOISE_BEFORE), t2], 'args': args}}
 
 
 def gen_nobuffer():
